@@ -42,12 +42,14 @@ def cases(tier, seed):
             nI, nX = rng.choice([(5, 5), (8, 9), (3, 13), (9, 4), (6, 6)])
             kw = {}
             if geom == 'irregular':
-                kw = {'holes': conv.pick_holes(rng, nI, nX), 'il': [rng.choice([1, 5, 100]), rng.choice([1, 2])], 'xl': [rng.choice([1, 20]), rng.choice([1, 3])]}
+                kw = {'holes': conv.pick_holes(rng, nI, nX), 'il': [rng.choice([1, 5, 100, -40, -100]), rng.choice([1, 2])], 'xl': [rng.choice([1, 20, -30]), rng.choice([1, 3])]}   # (no inline numbered 0: C08's known finding)
             else:
                 kw = {'il': [rng.choice([1, 10, -20]), rng.choice([1, 2, -1])], 'xl': [rng.choice([1, 100]), rng.choice([1, 3, -2])]}
             src = conv.src_desc(rng, geom, (nI, nX, rng.choice([4, 9, 20])), hdr=hdr, fmt=fmt, valkind=rng.choice(['smooth', 'noise', 'neg']), **kw)
             rate, bs = rng.choice([(4, (4, 4, -1)), (8, (4, 4, -1)), (16, (4, 4, -1)), (2, (64, 64, 4)), (8, (8, 8, -1)), (1, (4, 4, -1)),
                                    (8, (4, 8, -1)), (8, (8, 4, -1)), (16, (16, 4, -1)), (4, (4, 16, -1)), (32, (4, 4, -1)), (0.5, (4, 4, -1))])
+        if i % 7 == 3:
+            src['trace_sample_count'] = ['stale', 'vary'][(i // 7) % 2]
         out.append({'id': 'rt:%d:%s:fmt%d' % (i, geom, fmt), 'src': src, 'rate': rate, 'bs': list(bs), 'detection': rng.choice(['thorough', 'exhaustive', 'heuristic']),
                     'route': 'cli' if i % 5 == 0 else 'api', 'cost': 2})
     return out
